@@ -329,6 +329,13 @@ func hook(site int32) {
 			sOpSteps = 0
 			panic(hangSentinel{})
 		}
+		if sWallDeadline != 0 && sOpSteps&127 == 0 && nanotime() > sWallDeadline {
+			// reference executions only (see setWallCap): the call is abandoned
+			// and its run gives no verdict, exactly as with the step budget
+			sOpSteps = 0
+			sWallTrips++
+			panic(hangSentinel{})
+		}
 	case modeSched:
 		t := sTasks[sTurn]
 		t.steps++
@@ -337,6 +344,13 @@ func hook(site int32) {
 		sLastSite = site
 		if t.opBudget != 0 && t.opSteps > t.opBudget {
 			t.opSteps = 0
+			panic(hangSentinel{})
+		}
+		if sWallDeadline != 0 && t.steps&127 == 0 && nanotime() > sWallDeadline {
+			// only set for concurrent phases that have no reference execution yet
+			// (cold mode), where an abandoned call skips the run
+			t.opSteps = 0
+			sWallTrips++
 			panic(hangSentinel{})
 		}
 		if t.pi < len(t.preempts) && t.steps >= t.preempts[t.pi].At {
@@ -511,6 +525,25 @@ func setMode(m hookMode) { sMode = m }
 
 //go:norace
 func beginOp(budget uint64) { sOpSteps = 0; sOpBudget = budget }
+
+// A step budget does not bound time when every step is a multiplication of
+// numbers with a hundred thousand digits. The one-task *reference* execution of
+// the concurrent workload (never a faulted or concurrent execution, whose
+// overrun is a verdict) therefore also has a wall-clock cap per call; a run
+// that trips it is skipped like one that exhausts its step budget.
+var (
+	sWallDeadline int64
+	sWallTrips    uint64
+)
+
+//go:norace
+func setWallCap(d time.Duration) {
+	if d == 0 {
+		sWallDeadline = 0
+		return
+	}
+	sWallDeadline = nanotime() + int64(d)
+}
 
 //go:norace
 func opSteps() uint64 { return sOpSteps }
